@@ -50,8 +50,8 @@ VALUE_SERIALIZER = {
     "serialize_unit_variant": [[((), "Ok(String(variant))")]],
     "serialize_newtype_variant": [[(((SER, "fails"),), "Err(T::serialize!err(value, self))"),
                                    (((SER, "ok"),), "Ok(Map(insert(BTreeMap::new(), variant, T::serialize!(value, self))))")]],
-    "serialize_map": [[((), "Ok(SerializeMapValue(BTreeMap::new(), None))")]],
-    "serialize_struct": [[((), "Ok(SerializeMapValue(BTreeMap::new(), None))")]],
+    "serialize_map": [[((), "Ok(SerializeMapValue(BTreeMap::new(), Option::None))")]],
+    "serialize_struct": [[((), "Ok(SerializeMapValue(BTreeMap::new(), Option::None))")]],
     "serialize_struct_variant": [[((), "Ok(SerializeStructVariantValue(variant, BTreeMap::new()))")]],
 }
 for _t in ("i8", "i16", "i32", "i64", "u8", "u16", "u32", "u64"):
